@@ -42,6 +42,7 @@ def ofIterRes : IterRes → Json
 def ofReadErr : ReadErr → Json
   | .notSorted => Json.str "VcfNotSortedError"
   | .ploidy => Json.str "PloidyError"
+  | .runtime => Json.str "RuntimeError"
 
 def ofOut (o : Out) : Json :=
   Json.mkObj [("columns", ofList Json.str (renderColumns o.record)), ("record", ofRecord o.record),
